@@ -15,7 +15,7 @@ import time
 VERIF = os.path.dirname(os.path.dirname(os.path.abspath(__file__)))
 REPO = os.environ.get("VERIF_REPO", "/repo")
 CRATE_DIR = os.path.join(REPO, "packages", "rooc")
-CACHE = os.path.join(VERIF, ".cache")
+CACHE = os.environ.get("VERIF_CACHE", os.path.join(VERIF, ".cache"))   # overridden only by development tooling that analyses several scratch trees at once
 DRIVER = os.path.join(VERIF, "factgen", "target", "release", "factgen")
 
 CONFIGS = {
